@@ -154,7 +154,7 @@ pub fn eval_with_margin_opts(f: &v1::Function, state: &v1::State, o: &EvalOpts) 
         abs += tq;
     }
     let deg = raw.iter().map(|(k, _)| k.len()).max().unwrap_or(0);
-    Ok((v, eval_tol(raw.len(), deg, &abs) * o.scale + allowance))
+    Ok((v, (eval_tol(raw.len(), deg, &abs) + underflow_allowance(&raw, &magv)) * o.scale + allowance))
 }
 
 fn holds(equality: i32, v: &Q, margin: f64, id: u64) -> Result<Option<bool>, MReject> {
